@@ -15,7 +15,8 @@ try:
 except ImportError:
     astroid = None
 
-get_markers = Extractor()
+# side effects happen even if the exception is handled, so we look inside of `try` too
+get_markers = Extractor(skip_try=False)
 DEFINITELY_RANDOM_FUNCS = frozenset({
     'randint',
     'randbytes',
